@@ -266,6 +266,7 @@ finding("C16-errexit-inside-exit-handler", "C16", "under errexit a failing comma
 finding("C16-errexit-inside-exit-handler2", "C16", "same with errtrace", all=["opts:errexit+errtrace", "has:EXIT"], oracle="bash")
 finding("C16-err-errtrace-special", "C16", "ERR trap in functions with errtrace fires twice", all=["special:err-in-function-errtrace"])
 
+fixed("C17", "no longer ends the wait of its parent", "`{ sleep 0.2; echo $((1/0)); } & sleep 1 & wait` returned while the second job was still running (the first job's interpreter error surfaced in `wait`)")
 # ---------------------------------------------------------------------------------------------- C18
 finding("C18-coproc-fd-leak", "C18", "every `coproc` leaves its two descriptors open after the coprocess has finished and been waited for (2 descriptors per iteration)",
         all=["leaf:coproc"], oracle="descriptor-count", why=PINNED + " (coproc cases are known_failure) and needs coproc life-cycle tracking")
